@@ -40,10 +40,62 @@ def check(run):
         if ci is None:
             raise AnalysisError('anchored class vanished: Caching%dD' % nd)
         _one(run, ci, nd)
+        _once_and_nodes(run, ci, nd)
+    run.floor('C14-R5', 6)
     run.floor('C14-R1', 3)
     run.floor('C14-R2', 9, 'obligations')
     run.floor('C14-R3', 3)
     run.floor('C14-R4', 3 * 8, 'obligations')
+
+
+def _once_and_nodes(run, ci, nd):
+    """R5: a sample is normalised exactly once (stores into the sample cache are dominated by 'not cached yet' and store the
+    fresh function value); every axis has at least two nodes (one cell)."""
+    run.describe('C14-R5', 'samples are normalised once, when first computed; every axis of the cache grid has at least two nodes')
+    K = '%s|Caching%dD|' % (ci.mod.name, nd)
+    fn = ci.methods['_evaluate']
+    sts = [st for st in ast.walk(fn) if isinstance(st, ast.Assign) and isinstance(st.targets[0], ast.Subscript) and norm(st.targets[0].value) == 'self.data_view']
+    run.subject('C14-R5')
+    if not sts:
+        run.undecided('C14-R5', 'Caching%dD sample store' % nd, 'no store into self.data_view')
+    for st in sts:
+        f = facts(guards_of(fn, st) or [])
+        tgt = norm(st.targets[0])
+        cached_test = ('isnan(%s)' % tgt, 'true', '') in f
+        # the stored value is built from a local whose only definition is the function call
+        names = [x.id for x in ast.walk(st.value) if isinstance(x, ast.Name)]
+        fresh = False
+        for nm in names:
+            ds = [v for t, v, s2 in stores(fn) if isinstance(t, ast.Name) and t.id == nm]
+            if ds and all(isinstance(v, ast.Call) and norm(v.func) == 'self.function.evaluate' for v in ds):
+                fresh = True
+        if any(isinstance(x, ast.Call) and norm(x.func) == 'self.function.evaluate' for x in ast.walk(st.value)):
+            fresh = True
+        if cached_test and fresh:
+            run.ok('C14-R5', 'Caching%dD sample store' % nd, 'only when isnan(%s), from a fresh function value' % tgt)
+        elif not cached_test:
+            run.fail('C14-R5', K + '_evaluate|renormalised', ci.mod.relpath, st.lineno,
+                     'Caching%dD stores the normalised sample %s also when it is already cached: neighbouring cells share samples, so a sample is '
+                     'normalised again each time a neighbouring cell is built and the cached values depend on the order of evaluation' % (nd, tgt))
+        else:
+            run.fail('C14-R5', K + '_evaluate|stale-value', ci.mod.relpath, st.lineno,
+                     'Caching%dD normalises %s, which is not always a fresh value of the wrapped function' % (nd, norm(st.value)[:60]))
+    init = ci.methods.get('__init__')
+    lins = [c for c in ast.walk(init) if isinstance(c, ast.Call) and dotted(c.func) in ('linspace', 'np.linspace') and len(c.args) >= 3] if init else []
+    tests = ' ; '.join(norm(i.test) for i in ast.walk(init) if isinstance(i, ast.If)) if init else ''
+    for c in lins:
+        run.subject('C14-R5')
+        cnt = c.args[2]
+        mx = [m for m in ast.walk(cnt) if isinstance(m, ast.Call) and dotted(m.func) == 'max' and any(
+            isinstance(a, ast.Constant) and isinstance(a.value, int) and a.value >= 2 for a in m.args)]
+        if mx and mx[0] is cnt:
+            run.ok('C14-R5', 'Caching%dD nodes %s' % (nd, norm(c.args[0])[:12]), norm(cnt), sample=False)
+        elif not any(isinstance(m, ast.Call) and dotted(m.func) == 'max' for m in ast.walk(cnt)) and ' - ' not in tests.replace('EPSILON', ''):
+            run.fail('C14-R5', K + '__init__|single-node', ci.mod.relpath, c.lineno,
+                     'Caching%dD takes %s nodes on an axis with no lower bound of 2: when the resolution exceeds the extent the axis has one node and no '
+                     'cell, every point of the area is then out of range' % (nd, norm(cnt)))
+        else:
+            run.undecided('C14-R5', 'Caching%dD nodes' % nd, 'node count %s not recognised' % norm(cnt))
 
 
 def _one(run, ci, nd):
@@ -455,6 +507,9 @@ def _hermite(run, ci, nd, fn, blk, K, path):
 
 _C1, _C2, _C3 = FILES
 MUTANTS = [
+    dict(name='sample-renormalised-when-cached', file=_C1, find="                if isnan(self.data_view[u]):\n                    value = self.function.evaluate(self.x_domain_view[u])\n                    if not isnan(value):\n                        # data values are normalised here\n                        self.data_view[u] = (value - self.data_min) * self.data_delta_inv",
+         replace="                value = self.data_view[u]\n                if isnan(value):\n                    value = self.function.evaluate(self.x_domain_view[u])\n                self.data_view[u] = (value - self.data_min) * self.data_delta_inv", expect='C14-R5'),
+    dict(name='single-node-axis', file=_C1, find="max(int((maxx - minx) / deltax) + 1, 2)", replace="int(round((maxx - minx) / deltax)) + 1", expect='C14-R5'),
     dict(name='sample-at-query-point', file=_C1, find="value = self.function.evaluate(self.x_domain_view[u])", replace="value = self.function.evaluate(px)", expect='C14-R'),
     dict(name='flag-before-solve', file=_C2, find="        if not self.calculated_view[i_x_p, i_y_p]:\n", replace="        if not self.calculated_view[i_x_p, i_y_p]:\n            self.calculated_view[i_x_p, i_y_p] = True\n", expect=None),
     dict(name='flag-never-set', file=_C2, find="            self.calculated_view[i_x_p, i_y_p] = True\n", replace="", expect='C14-R2'),
